@@ -87,6 +87,10 @@ func shapeKey(m *ea.Model) string {
 // opsFor lists the operations under test that are enabled in the state, full = the whole set, else the subset that
 // changes the chain or the data (used for the larger pre-states of the quick tier).
 func opsFor(m *ea.Model, full bool) []string {
+	if m.CloneOf != "" {
+		// a clone replica whose files have been copied: the one operation of interest is the rewiring of its head
+		return []string{"CloneInfo", "Open"}
+	}
 	ops := []string{"Open", "W:0:8", "W:3:2", "SnapU", "SnapA", "Reload", "Grow:1"}
 	if full {
 		ops = append(ops, "Close", "W:8:16", "W:4:8", "WWO:0:8", "WWO:3:2", "Rebuild:t", "Rebuild:f", fmt.Sprintf("SetRev:%d", m.Rev+7), "Recreate")
@@ -196,6 +200,10 @@ var quickPre = []preState{
 	// a revert to an inner member leaves a newer USER snapshot (s3) behind as an orphan hanging off an automatic one
 	{h("W:0:8 SnapA W:8:8 SnapA W:0:8 SnapU W:16:8 Revert:1 W:8:8"), false, false},
 	{h("W:0:8 SnapA W:8:8 SnapA W:0:8 SnapU W:16:8 Revert:1 SnapU"), false, false},
+	// a clone replica in the middle of its clone: the source's snapshot files are in its directory, its head has not
+	// been rewired yet (UpdateCloneInfo is the operation under test)
+	{h("W:0:8 SnapU W:8:8 SnapA W:0:8 MakeClone:1"), false, false},
+	{h("W:0:16 SnapU MakeClone:0"), false, false},
 }
 
 // EnumPairs lists the (pre-state, operation) pairs of a tier.
